@@ -1,5 +1,5 @@
 """C11 — exactly the needed files are on disk: nothing live deleted, nothing dead kept."""
-from gen import lib, dbh, crash, proto, fault
+from gen import lib, dbh, crash, proto, fault, names
 
 PROP_FILE = "props/C11.v"
 WANT = ("dir",)
@@ -12,7 +12,9 @@ RULE = ("dbhist: histories with flushes, automatic and manual compactions, trivi
         "and, after quiescence and again after a clean reopen, the same exactness is required. "
         "proto: after every operation the set of files in the directory (and their contents) must be "
         "exactly what the extracted protocol model derives, garbage collection included. "
-        "fault: a file-system call fails (every class, sampled positions, transient and sticky); after "
+        "names: the names the database gives its files and the way it recognises directory entries "
+        "(FileNameHandler) against the extracted model, formatted names for boundary numbers and "
+        "mutated / random names. fault: a file-system call fails (every class, sampled positions, transient and sticky); after "
         "the fault is gone the database must reopen, i.e. no file recovery needs was removed by an "
         "error path. Non-trivial: a history that creates at least one table file; distinct by sha1.")
 TRUSTED = ["directory listing of SimFs; current version and file numbers from the DB::verif_dump hook"]
@@ -40,6 +42,7 @@ def suites(tier, seed, rng):
     return [dbh.DbSuite(dbh.corpus("C11") + gen_cases(tier, rng)),
             crash.CrashSuite(gen_crash(tier, rng), WANT),
             proto.ProtoSuite(gen_proto(tier, rng)),
+            names.NamesSuite(names.gen_cases(tier, rng)),
             fault.FaultSuite(["%s # %d" % (" ".join(fault.gen_history(rng, "f%d" % i, rng.choice([12, 20]))), 2 if tier == "quick" else 20)
                               for i in range(3 if tier == "quick" else 60)])]
 
@@ -49,6 +52,8 @@ def replay_suites(rp):
         return [proto.ProtoSuite([rp["case"]])]
     if rp.get("suite") == "fault":
         return [fault.FaultSuite([rp["case"]])]
+    if rp.get("suite") == "names":
+        return [names.NamesSuite([rp["case"]])]
     if rp.get("suite") == "crash":
         return [crash.CrashSuite([rp["case"]], WANT)]
     return [dbh.DbSuite([rp["case"]])]
